@@ -1,5 +1,6 @@
 import H2T.Lemmas.FitsBlock
 import H2T.Lemmas.ConserveTree
+import H2T.Lemmas.ConserveTableTree
 import H2T.Props.C15
 import H2T.Props.C04
 
@@ -19,8 +20,13 @@ held before plus exactly the non-whitespace, non-control characters of the added
 exactly that); for every **table-free program whose block prefixes are whitespace** the non-whitespace characters of the
 rendered lines are exactly the ink of the program, in order (`rendering_conserves_ink`: wrapping, hard wrapping, tab
 expansion, blocks, nested sub-renderers, flushing and markers neither lose, duplicate, reorder nor invent a character);
-and for simple trees under the trivial decorator that ink is the text of the tree (`trivial_text_preserved`).  Tables,
-non-whitespace prefixes (which need a provenance bit to separate from document text) and footnotes are decided by
+and for simple trees under the trivial decorator that ink is the text of the tree (`trivial_text_preserved`).  **Tables
+included, nothing is invented or duplicated** (`no_character_invented`, `Lemmas/ConserveTable`): for *every* render tree —
+tables, nested tables, stacked rows, border collapsing, cells of zero width — under a decorator with whitespace block
+prefixes, every character other than a box-drawing character, `/` and the strikeout mark occurs in the output at most as
+often as in the tree's texts; and one finished row adds exactly what its cells hold (`row_adds_its_cells`): the only loss
+in a table is a cell that is never rendered because its columns got no width (the known drop regions).  Exact
+conservation through tables as a sequence, non-whitespace prefixes (which need a provenance bit to separate from document text) and footnotes are decided by
 correspondence (`src` stream of model vs implementation) and by the search oracle against an independent walk of the
 oracle DOM. -/
 
@@ -138,5 +144,33 @@ example :
     ((({ width := 4 } : WB).addText .normal [] [] (strCh "ab cdefgh")).toOption.bind fun b =>
         b.finish.toOption.map fun ls => ls.map fun l => (cellsOf l).map (·.ch.cp))
       = some [[97, 98], [99, 100, 101, 102], [103, 104]] := by decide +kernel
+
+/-! ## tables -/
+
+/-- **nothing is invented or duplicated — tables included**: for every render tree (tables, nested tables, stacked rows,
+    border collapsing), every width and configuration with footnotes off, under a decorator whose block prefixes are
+    whitespace: every character `c` that is not a box-drawing character, `/` (the rule of stacked rows) or the strikeout
+    mark occurs in the rendered lines at most as often as in the tree's texts (`nodeRaw`: text nodes, image texts and the
+    decorator's inline affixes, in document order) -/
+theorem no_character_invented (c : Ch) (hc : isBox c = false) (hm : c ≠ strikeMark) (cfg : Cfg) (d : Deco) (w : Nat) (tree : RNode)
+    (ls : List RLine) (hfn : cfg.footnotes = false) (hd : SilentDeco d) (h : renderTree cfg d w tree = .ok ls) :
+    (ls.flatMap rink).count c ≤ (nodeRaw d tree).count c :=
+  renderTree_no_invention_tree c hc hm cfg d w tree ls hfn hd h
+
+/-- **a side-by-side row adds exactly what its cells hold** (for characters other than box-drawing ones): padding,
+    separators, border collapsing and the bottom rule neither lose nor add a text character -/
+theorem row_adds_its_cells (c : Ch) (hc : isBox c = false) (s s' : SubR) (cfg : Cfg) (cols : List SubR) (hf : s.FragsOk)
+    (hcf : ∀ col ∈ cols, col.FragsOk) (h : s.appendColumns cfg cols = .ok s') :
+    s'.ink.count c = s.ink.count c + (cols.map fun col => col.ink.count c).sum :=
+  (appendColumns_cnt c hc s s' cfg cols hf hcf h).1
+
+/-- …and so does a stacked row -/
+theorem stacked_row_adds_its_cells (c : Ch) (hc : isBox c = false) (s s' : SubR) (cfg : Cfg) (cols : List SubR) (hf : s.FragsOk)
+    (hcf : ∀ col ∈ cols, col.FragsOk) (h : s.appendVertRow cfg cols = .ok s') :
+    s'.ink.count c = s.ink.count c + (cols.map fun col => col.ink.count c).sum :=
+  (appendVertRow_cnt c hc s s' cfg cols hf hcf h).1
+
+/-! non-vacuity: the letter `a` is neither a box character nor the strikeout mark; the trivial decorator is silent -/
+example : isBox (mkCh 97) = false ∧ mkCh 97 ≠ strikeMark ∧ SilentDeco Deco.trivial := ⟨rfl, by decide, trivial_silent⟩
 
 end H2T.C03
